@@ -66,6 +66,24 @@ def plan(tier, ctx):
                                      unwindset=["harness.%d:42" % i for i in range(6)] + ["crc32_gzip_refl_base.0:4", "adler32_base.2:4", "write_stored_block.0:3"],
                                      witness=True, timeout=600),
                                 core=(wrap == 1), family="PARAM", weight=30))
+    # ---------------------------------------------------------------- stored bound at the 65535 boundaries (lead)
+    # real stored_len arithmetic + real fallback of isal_deflate_stateless with the compression attempt replaced by
+    # a failing stub (--replace-calls): avail_out around the documented bound on an exact-size output object
+    sl_units = ["igzip/igzip.c", "igzip/igzip_base.c", "igzip/igzip_base_aliases.c", "igzip/hufftables_c.c",
+                "crc/crc_base.c", "crc/crc64_base.c", "crc/crc_base_aliases.c", "igzip/adler32_base.c"]
+    for n in ([65535, 65536, 131071] if quick else [1, 65534, 65535, 65536, 65537, 131070, 131071, 131072]):
+        for wrap in ([0] if quick else [0, 1, 3]):
+            b = D.bound(n, wrap)
+            for av in ([b - 5, b - 1, b] if quick else [b - 6, b - 5, b - 1, b, b + 1]):
+                qs.append(Query("STOREDLEN/n%d/%s/av%+d" % (n, D.WRAPS[wrap], av - b), D.R,
+                                dict(harness="harness/C10/h_storedlen.c", units=sl_units, vunits=D.VUNITS,
+                                     defines=["_X86INTRIN_H_INCLUDED=1", "_IMMINTRIN_H_INCLUDED=1"],
+                                     hdefines=["N=%d" % n, "WRAP=%d" % wrap, "AVAIL_OUT=%d" % av],
+                                     replace_calls=["isal_deflate_int_stateless:verif_attempt_fails", "memcpy:verif_memcpy"],
+                                     unwindset=["write_stored_block.0:5", "crc32_gzip_refl_base.0:%d" % (n + 2), "adler32_base.0:40", "adler32_base.1:5560", "adler32_base.2:20",
+                                                ],
+                                     unwind=66, object_bits=10, witness=(n == 65536 and av == b), timeout=600, mem_gb=16, replay=False),
+                                core=False, family="STOREDLEN", weight=n / 1000.0))
     return Plan("C10", "model_checking", qs,
                 functions_encoded=["isal_deflate_stateless", "isal_deflate_int_stateless", "write_stream_header_stateless",
                                    "write_deflate_header_stateless", "write_stored_block", "write_type0_header", "write_trailer",
